@@ -1613,6 +1613,7 @@ class Tie:
                 self.report(replay, "input side: unparsable output / model failure (%r)" % (e,), no_input=True)
 
     K_STALE = "C20-corruption-return-keeps-position"
+    K_SHORTEND = "C20-short-frame-unnoticed-at-read-end"
 
     def phase_r3_history_independence(self):
         """Malformed archives (a seek-table entry announcing more decompressed bytes than its frame holds; checksums on and off): every
@@ -1630,10 +1631,13 @@ class Tie:
             if len(arch) < 60 or arch[ts:ts + 4] != struct.pack("<I", 0x184D2A5E):
                 self.report(dict(kind="r3", scenario="history-independence", cf=cf, rc=rc0, seed=ctx.seed), "could not build the base archive", no_input=True)
                 continue
-            for (ent, grow) in ((0, 8), (1, 8), (0, 1), (1, 16), (2, 3)):
+            for (ent, grow, flipck) in ((0, 8, 0), (1, 8, 0), (0, 1, 0), (1, 16, 0), (2, 3, 0)) + (((0, 8, 1), (1, 5, 1)) if cf else ()):
                 pos = ts + 8 + ent * spe_ + 4
                 newd = struct.unpack("<I", arch[pos:pos + 4])[0] + grow
                 hists = [[(0, 16 + grow), (16, 4), (20, 3), (16 + grow, 8)]] if (ent, grow) == (0, 8) else []
+                if (ent, grow) == (1, 8):
+                    # a SUCCESSFUL read ending exactly where the short frame really ends, then "the rest of that frame" (key C20-short-frame-unnoticed-at-read-end)
+                    hists += [[(16, 16), (32, 4), (36, 3)], [(31, 1), (32, 4)]]
                 for _ in range(3 if ctx.quick else 12):
                     h = []
                     for _ in range(rng.randint(3, 7)):
@@ -1642,11 +1646,13 @@ class Tie:
                     hists.append(h)
                 for h in hists:
                     head = ["archive_file %s" % ap, "setbytes %d %s" % (pos, struct.pack("<I", newd).hex())]
+                    if flipck:      # the entry's checksum is wrong too: the call ends in the checksum-mismatch return instead of the short-frame one
+                        head.append("setbytes %d %s" % (pos + 4, bytes([arch[pos + 4] ^ 1]).hex()))
                     text = head + ["open mem"] + ["r %d %d" % r for r in h] + ["close"]
                     for r in h:
                         text += ["open mem", "r %d %d" % r, "close"]
                     rc, cl, cerr = self.run_c("\n".join(text) + "\n", timeout=60, linebuf=True)
-                    replay = dict(kind="r3", scenario="history-independence", cf=cf, entry=ent, grow=grow, archive_hex=arch.hex(), history=[list(r) for r in h],
+                    replay = dict(kind="r3", scenario="history-independence", cf=cf, entry=ent, grow=grow, checksum_flipped=flipck, archive_hex=arch.hex(), history=[list(r) for r in h],
                                   commands=text, rc=rc, seed=ctx.seed)
                     try:
                         rl = [l for l in cl if l.startswith("r ")]
@@ -1657,14 +1663,15 @@ class Tie:
                             es, ef = ds["ret"].startswith("E"), df["ret"].startswith("E")
                             if (ef and not es) or (not ef and not es and (ds["ret"] != df["ret"] or ds.get("crc") != df.get("crc"))):
                                 self.report(dict(replay, failing_read=j),
-                                            "malformed archive (content 30..5f, initCStream(3, checksumFlag %d, maxFrameSize 16); seek-table entry %d: decompressed size %d -> %d, "
+                                            "malformed archive (content 30..5f, initCStream(3, checksumFlag %d, maxFrameSize 16); seek-table entry %d: decompressed size %d -> %d%s, "
                                             "the frame holds %d bytes): after the history [%s] decompress(dst, %d, %d) returns %s with bytes %s; the same call on a fresh reader "
                                             "returns %s%s. The earlier call that reported the corruption left curFrame / decompressedOffset claimed while the decoder had "
                                             "finished the frame: the continue path decodes the NEXT frame of the file as the rest of this one"
-                                            % (cf, ent, newd - grow, newd, newd - grow, " ; ".join("r %d %d" % q for q in h[:j]), r[1], r[0], ds["ret"], ds.get("data", "?"),
-                                               df["ret"], "" if ef else " with bytes " + df.get("data", "?")), key=self.K_STALE)
+                                            % (cf, ent, newd - grow, newd, " and checksum bit 0 flipped" if flipck else "", newd - grow, " ; ".join("r %d %d" % q for q in h[:j]), r[1], r[0], ds["ret"], ds.get("data", "?"),
+                                               df["ret"], "" if ef else " with bytes " + df.get("data", "?")),
+                                            key=(self.K_STALE if j > 0 and kv(rl[j - 1])[2]["ret"].startswith("E") else self.K_SHORTEND))
                                 break
-                            ctx.count(("r3-hist", cf, ent, es, ef))
+                            ctx.count(("r3-hist", cf, ent, flipck, es, ef))
                     except Fail as e:
                         self.report(replay, "history independence on a malformed archive: " + str(e))
                     except (IndexError, KeyError, ValueError) as e:
@@ -1847,15 +1854,17 @@ class Tie:
                     orc = ";".join("%s:%s" % (t.split(":")[3], "1" if t.split(":")[5] == "1" else "0") for t in d["tr"].split(";") if t[0] in "kd")
                     mtext.append("r %s %s %s" % (pos[0], pos[1], orc or "-"))
                 ml = [l for l in self.run_m("\n".join(mtext) + "\n") if l.startswith("r ")]
-                want = ["E20", "16", "E20"]
+                # reads reaching beyond the 16 bytes the frame holds must be refused; the read of exactly those 16 bytes follows the model
+                # (refused too since the short-frame test is unconditional; success with the right bytes before that)
+                want = ["E20", None, "E20"]
                 for ln, mln, w, rd in zip(rl, ml, want, v["reads"]):
                     d = kv(ln)[2]
                     md = kv(mln)[2]
-                    if d["ret"] != w:
+                    if w is not None and d["ret"] != w:
                         raise Fail("%s%s returned %s, expected %s (%s access)" % (rd[0], rd[1:], d["ret"], w, mode))
                     if norm_ret(md.get("ret", "?")) != d["ret"]:
                         raise Fail("%s%s returned %s, model %s" % (rd[0], rd[1:], d["ret"], mln[:120]))
-                    if w == "16" and d.get("data") != x.hex():
+                    if d["ret"] == "16" and d.get("data") != x.hex():
                         raise Fail("read of the 16 bytes the frame holds returned other bytes")
                 self.ctx.count(("short-frame", mode))
                 self.ctx.cov["traces_validated_against_impl"] += 1
